@@ -19,3 +19,43 @@ Theorem C02_maxN_is_maximum : forall l,
   (forall x, In x l -> x <= maxN l) /\ (l <> [] -> In (maxN l) l) /\ maxN [] = 0.
 Proof. exact maxN_is_maximum. Qed.
 Print Assumptions C02_maxN_is_maximum.
+
+(* ---- tie T: the record* methods of sizes/sizes.go, regenerated from the Go source on every run (gen/RecordGen.v;
+   a setPath call becomes a boolean flag), equal the model's `record` on the numbers and raise exactly the flags the
+   path-slot model uses (adj_max_nec / adj_max_poss of the value BEFORE the event) ---- *)
+From GS Require Import CountsBridge SizesBridge RecordBridge.
+From GSGen Require Import CountsGen SizesGen RecordGen.
+
+Theorem C02_recordBlob_generated : forall h o size, hist_ok h -> in32 size ->
+  HistorySize_recordBlob (to_hgen h) (mk_BlobSize size) =
+    (to_hgen (record h (EvBlob o size)), snd (adj_max_nec (h_maxblob h) size)).
+Proof. exact recordBlob_bridge. Qed.
+Print Assumptions C02_recordBlob_generated.
+
+Theorem C02_recordTree_generated : forall h o ts size entries, hist_ok h -> in32 size -> in32 entries ->
+  HistorySize_recordTree (to_hgen h) (to_gen ts) size entries =
+    (to_hgen (record h (EvTree o ts size entries)),
+     snd (adj_max_nec (h_maxentries h) entries), snd (adj_max_nec (h_xdepth h) (t_depth ts)),
+     snd (adj_max_nec (h_xlen h) (t_len ts)), snd (adj_max_nec (h_xtrees h) (t_trees ts)),
+     snd (adj_max_nec (h_xblobs h) (t_blobs ts)), snd (adj_max_nec (h_xbsize h) (t_bsize ts)),
+     snd (adj_max_nec (h_xlinks h) (t_links ts)), snd (adj_max_nec (h_xsubs h) (t_subs ts))).
+Proof. exact recordTree_bridge. Qed.
+Print Assumptions C02_recordTree_generated.
+
+Theorem C02_recordCommit_generated : forall h o depth size np, hist_ok h -> in32 size ->
+  HistorySize_recordCommit (to_hgen h) (mk_CommitSize depth) size np =
+    (to_hgen (record h (EvCommit o depth size np)),
+     snd (adj_max_poss (h_maxcommit h) size), snd (adj_max_poss (h_maxparents h) np)).
+Proof. exact recordCommit_bridge. Qed.
+Print Assumptions C02_recordCommit_generated.
+
+Theorem C02_recordTag_generated : forall h o depth size, hist_ok h ->
+  HistorySize_recordTag (to_hgen h) (mk_TagSize depth) size =
+    (to_hgen (record h (EvTag o depth size)), snd (adj_max_nec (h_tagdepth h) depth)).
+Proof. exact recordTag_bridge. Qed.
+Print Assumptions C02_recordTag_generated.
+
+Theorem C02_recordReference_generated : forall h name o w groups, hist_ok h ->
+  HistorySize_recordReference (to_hgen h) = to_hgen (record h (EvRef name o w true groups)).
+Proof. exact recordReference_bridge. Qed.
+Print Assumptions C02_recordReference_generated.
